@@ -375,6 +375,16 @@ def check_case(case, ctx):
                    cls="%s%s%s" % (case["chroot"], case["setuid"], case["fail"]))
         if raised is not None and case["fail"] is None and not isinstance(raised, Exception):
             raise raised
-        return _predicates(case, trace, raised, server, root)
+        fails = _predicates(case, trace, raised, server, root)
+        if server is not None and raised is None:
+            # the root the handlers will really resolve selectors against (memoised process-wide on first use)
+            from pygopherd.handlers import base as hbase
+            eff = hbase.VFS_Real(server.config).getrootpath()
+            want = "/" if case["chroot"] else root
+            if os.path.normpath(eff) != os.path.normpath(want):
+                fails.append(Fail("effective-root:%s" % ("chroot" if case["chroot"] else "plain"),
+                                  "after start-up (usechroot=%s) the handlers resolve selectors against %r, expected %r" % (
+                                      case["chroot"], eff, want)))
+        return fails
     finally:
         world.rmtree(base)
